@@ -7,31 +7,24 @@ import (
 	"github.com/brimdata/super/zson"
 )
 
-// refsFollowDefs parses ZSON text with the repo's parser (syntax only) and
-// walks the syntax tree in *text order* (a value before its decorators, fields
-// and elements left to right): it reports whether every type-name reference is
-// preceded, in the text, by a definition of that name.  docs/formats/zson.md
-// 2.5.8: "the new type name may be referenced by any subsequent value in
-// left-to-right depth-first order".  Used to tell an analyzer that fails to see
-// an earlier definition from a formatter that really emitted a dangling reference.
-func refsFollowDefs(text string) bool {
-	p := zson.NewParser(strings.NewReader(text))
-	w := &orderWalker{defined: map[string]bool{}, ok: true}
-	for {
-		v, err := p.ParseValue()
-		if err != nil {
-			return false
-		}
-		if v == nil {
-			return w.ok
-		}
-		w.value(v)
-	}
+// The ZSON spec resolves type names in text order (docs/formats/zson.md 2.5.8:
+// "the new type name may be referenced by any subsequent value in left-to-right
+// depth-first order", redefinitions "resolve to the most recent definition").
+// zson.Analyzer instead converts a decorator *before* the value it decorates
+// (with two special cases that pre-enter directly nested typedefs).  The
+// orderWalker replays both orders over the syntax tree produced by the repo's
+// own parser and tells whether they bind any reference, or leave any name,
+// differently.  It is used only to *classify* an observed round-trip failure:
+// if the text means different things in the two orders, the failure is the
+// analyzer's evaluation order and not (necessarily) the formatter.
+type orderWalker struct {
+	analyzerOrder bool
+	defs          map[string]any           // name -> defining node
+	refs          map[*astzed.TypeName]any // reference -> defining node (nil: unresolved)
 }
 
-type orderWalker struct {
-	defined map[string]bool
-	ok      bool
+func newOrderWalker(analyzerOrder bool) *orderWalker {
+	return &orderWalker{analyzerOrder: analyzerOrder, defs: map[string]any{}, refs: map[*astzed.TypeName]any{}}
 }
 
 func (w *orderWalker) value(v astzed.Value) {
@@ -40,10 +33,22 @@ func (w *orderWalker) value(v astzed.Value) {
 		w.any(v.Of)
 	case *astzed.DefValue:
 		w.any(v.Of)
-		w.defined[v.TypeName] = true
+		w.defs[v.TypeName] = v
 	case *astzed.CastValue:
-		w.value(v.Of)
+		if !w.analyzerOrder {
+			w.value(v.Of)
+			w.typ(v.Type)
+			return
+		}
+		// Analyzer.convertValue
+		switch of := v.Of.(type) {
+		case *astzed.DefValue:
+			w.value(of)
+		case *astzed.CastValue:
+			w.typ(of.Type)
+		}
 		w.typ(v.Type)
+		w.value(v.Of)
 	}
 }
 
@@ -77,11 +82,9 @@ func (w *orderWalker) typ(t astzed.Type) {
 	switch t := t.(type) {
 	case *astzed.TypeDef:
 		w.typ(t.Type)
-		w.defined[t.Name] = true
+		w.defs[t.Name] = t
 	case *astzed.TypeName:
-		if !w.defined[t.Name] {
-			w.ok = false
-		}
+		w.refs[t] = w.defs[t.Name]
 	case *astzed.TypeRecord:
 		for _, f := range t.Fields {
 			w.typ(f.Type)
@@ -100,4 +103,49 @@ func (w *orderWalker) typ(t astzed.Type) {
 	case *astzed.TypeError:
 		w.typ(t.Type)
 	}
+}
+
+func parseAll(text string) ([]astzed.Value, bool) {
+	p := zson.NewParser(strings.NewReader(text))
+	var out []astzed.Value
+	for {
+		v, err := p.ParseValue()
+		if err != nil {
+			return out, false
+		}
+		if v == nil {
+			return out, true
+		}
+		out = append(out, v)
+	}
+}
+
+// orderSensitive returns the index of the first top-level value of text after
+// which text order and analyzer order disagree (on a reference made so far or
+// on the binding of a name), provided the text is well-formed in text order up
+// to there (no dangling reference).
+func orderSensitive(text string) (int, bool) {
+	vals, ok := parseAll(text)
+	if !ok {
+		return 0, false
+	}
+	a, b := newOrderWalker(false), newOrderWalker(true)
+	for i, v := range vals {
+		a.value(v)
+		b.value(v)
+		for ref, site := range a.refs {
+			if site == nil {
+				return 0, false // dangling in text order: the writer's fault
+			}
+			if b.refs[ref] != site {
+				return i, true
+			}
+		}
+		for name, site := range a.defs {
+			if b.defs[name] != site {
+				return i, true
+			}
+		}
+	}
+	return 0, false
 }
